@@ -121,7 +121,13 @@ func genPositionsWalk(r *rand.Rand, n int) []Step {
 func genScenario(r *rand.Rand, i int) []Step {
 	blk := func(dt int) Step { return Step{"a": "block", "dt": float64(dt)} }
 	u, v := pick(r, "u2", "u3"), "u1"
-	switch i % 14 {
+	switch i % 15 {
+	case 14: // governance updates the vault's parameters while loans carry pending interest
+		return []Step{{"a": "levOpen", "u": "u2", "p": float64(1), "sz": "s2", "lev": "5"}, {"a": "levOpen", "u": "u1", "p": float64(1), "sz": "s1", "lev": "3"},
+			{"a": "levOpen", "u": "u3", "p": float64(1), "sz": "s2", "lev": "2"}, blk(5), blk(86400 * 20), // (the sweep refreshes two of the three per block)
+			{"a": "govParam", "module": "stablestake", "field": "EpochLength", "value": "one"}, blk(5),
+			{"a": "bond", "u": "u3", "sz": "1000000"}, {"a": "levClose", "u": "u2", "id": float64(1), "frac": "half"}, blk(5),
+			{"a": "govParam", "module": "leveragelp", "field": "EpochLength", "value": "one"}, {"a": "govParam", "module": "perpetual", "field": "EpochLength", "value": "one"}, blk(5)}
 	case 12: // the sweep liquidates a big position and then looks at a healthy one of the same pool whose stop-loss sits a few per cent
 		// below the LP price (both in one page of the sweep, an hour after opening)
 		return []Step{{"a": "levOpen", "u": "u2", "p": float64(1), "sz": pick(r, "25000000000", "30000000000"), "lev": "9"},
